@@ -13,7 +13,7 @@ CONSTANTS
   TableGrades = {"c0", "c12"}
   ListAns = {}
   MaxItems = 1
-  Layouts = {"flat2", "flat3", "g121", "g1212"}
+  Layouts = {"flat2", "g121", "g1212"}
   TableOnly = {"g1212"}
   AttOpts = {"none", "c1", "c12", "c0", "c1e4"}
   OkRecomputed = TRUE
